@@ -562,6 +562,15 @@ fn c14_routes(rep: &mut Report) {
             a.push(Value::Object(o));
             Value::Array(a)
         };
+        // the routes must be what their labels say (a cloned String would silently lose its
+        // spare capacity and with it the heap-stored short key)
+        if c.len() <= 16 && !c.is_empty() {
+            let probe = json_syntax::object::Key::from(roomy());
+            let inline = json_syntax::object::Key::from(c.as_str());
+            if !probe.spilled() || inline.spilled() {
+                rep.note(format!("construction routes: the roomy key for {c:?} is {} and the plain one is {}; the family does not cover heap-stored short keys", if probe.spilled() { "on the heap" } else { "inline" }, if inline.spilled() { "on the heap" } else { "inline" }));
+            }
+        }
         let nested: Vec<(&str, Value)> = vec![
             ("From<&str> key and value", wrap(&routes[0].1, c.as_str().into())),
             ("roomy key and value", wrap(&routes[1].1, json_syntax::object::Key::from(roomy()))),
